@@ -571,6 +571,13 @@ def _eval_size_function(f, env):
                 continue
             if isinstance(s, ast.Assign) and len(s.targets) == 1 and isinstance(s.targets[0], ast.Name):
                 env[s.targets[0].id] = intexpr.ev(s.value, env)
+            elif isinstance(s, ast.Assign) and len(s.targets) == 1 and isinstance(s.targets[0], ast.Tuple) and \
+                    all(isinstance(t, ast.Name) for t in s.targets[0].elts):
+                v = intexpr.ev(s.value, env)         # q, r = divmod(a, b)
+                if not isinstance(v, tuple) or len(v) != len(s.targets[0].elts):
+                    raise intexpr.NotPure('tuple assignment')
+                for t, x in zip(s.targets[0].elts, v):
+                    env[t.id] = x
             elif isinstance(s, ast.AugAssign) and isinstance(s.target, ast.Name):
                 cur = env[s.target.id]
                 v = intexpr.ev(s.value, env)
